@@ -163,6 +163,68 @@ def probe_negated(built, element):
     return rows, problems
 
 
+FORWARD = {"__add__": ("+", "add"), "__sub__": ("-", "sub"), "__mul__": ("*", "mul"), "__truediv__": ("/", "div"), "__mod__": ("%", "mod"),
+           "__pow__": ("**", "pow"), "__gt__": (">", "gt"), "__lt__": ("<", "lt"), "__ge__": (">=", "ge"), "__le__": ("<=", "le"),
+           "__eq__": ("==", "eq"), "__ne__": ("!=", "ne")}
+
+
+def probe_forward(built, element):
+    """every forward overload `e X 7.5` as a BUILD step, on an instance of every operator class (placeholder operands), on the
+    two-operand classes with a NUMBER as one operand (so that a rewrite keyed on literals is reached) and on a plain element;
+    the text of `e` itself becomes hole 0, the literal hole 1.  Returns {method: [(key, 2, words)]}, problems"""
+    import BPTK_Py.sddsl.operators as O
+    PH = make_ph()
+    subjects = [("Element", element)] + sorted(built.items())
+    for cn in ["AdditionOperator", "SubtractionOperator", "MultiplicationOperator", "DivisionOperator", "ModOperator", "PowerOperator",
+               "NumericalMultiplicationOperator", "MaxOperator", "MinOperator"]:
+        for lit in (2.0, 2, 0.5, -1.0):
+            subjects.append((f"{cn}(h,{lit})", getattr(O, cn)(PH(0), lit)))
+            subjects.append((f"{cn}({lit},h)", getattr(O, cn)(lit, PH(0))))
+    subjects.append(("ComparisonOperator(h,2.0)", O.ComparisonOperator(PH(0), 2.0, ">")))
+    rows, problems = {mn: [] for mn in FORWARD}, []
+    for key, obj in subjects:
+        for mn in FORWARD:
+            meth = getattr(type(obj), mn, None)
+            if meth is None or meth is getattr(object, mn, None):
+                continue
+            try:
+                res = meth(obj, 7.5)
+                if res is NotImplemented:
+                    continue
+                words = pyfrag.lex(res.term("t"))
+                mine = pyfrag.lex(obj.term("t"))
+                pos = [i for i in range(len(words) - len(mine) + 1) if words[i:i + len(mine)] == mine]
+                if pos:
+                    words = words[:pos[-1]] + ["H0"] + words[pos[-1] + len(mine):]
+                lit = [i for i, w in enumerate(words) if w == "N7.5"]
+                if lit:
+                    words = words[:lit[-1]] + ["H1"] + words[lit[-1] + 1:]
+                rows[mn].append((key, 2, words))
+            except Exception as ex:
+                problems.append((f"{key}.{mn}", f"{type(ex).__name__}: {str(ex)[:80]}"))
+    return rows, problems
+
+
+def same_op_trees():
+    """nestings of the SAME binary operator with number literals on both levels — (x op k1) op k2, k1 op (k2 op x),
+    (k1 op x) op k2, x op (k1 op k2)-free — over operands that are positive, negative and zero at run time, with integer /
+    fractional, even / odd, positive / negative literals.  A build-time identity ((x^m)^n = x^(mn), (x/k1)/k2 = x/(k1 k2),
+    (x-k1)-k2 = x-(k1+k2), (x%k1)%k2 …) applied outside its domain changes the value."""
+    a, b = ("el", "a"), ("el", "b")
+    xs = [a, ("sub", b, a), ("sub", a, a), ("neg", a), ("mul", ("sub", b, a), ("num", 0.5)), ("agg", "arr_sum", "v")]
+    k1s = [2, 2.0, 3, 0.5, -1.0, 4, 1.5]
+    k2s = [0.5, 2, 3.0, -2, 1.5, 0.25]
+    out = []
+    for op in BIN:
+        for x in xs:
+            for k1 in k1s:
+                for k2 in k2s:
+                    out.append((op, (op, x, ("num", k1)), ("num", k2)))            # (x op k1) op k2
+                    out.append((op, ("num", k1), (op, ("num", k2), x)))            # k1 op (k2 op x)
+                    out.append((op, (op, ("num", k1), x), ("num", k2)))            # (k1 op x) op k2
+    return out
+
+
 def is_negn(sx, n):
     """Python twin of Lean `isNegN`: the S-expression is n nested `(-1.0) * …` around hole 0"""
     for _ in range(n):
@@ -645,10 +707,12 @@ def run(chk):
     keyidx = {e[0]: i for i, e in enumerate(entries)}
     refl, refl_unspec, refl_problems = probe_reflected()
     negrows, neg_problems = probe_negated(probe_table.built, probe_table.element)
+    fwdrows, fwd_problems = probe_forward(probe_table.built, probe_table.element)
     table_src = ("import Bptk.Core.PyFrag\n/-! GENERATED from /repo by harness/props/c02.py on every run — do not edit. -/\n"
                  + pyfrag.lean_table("table", entries, "Bptk.C02.Gen") + pyfrag.lean_table("extended", extended, "Bptk.C02.Gen")
                  + pyfrag.lean_table("reflected", [r[:3] for r in refl], "Bptk.C02.Gen")
-                 + "".join(pyfrag.lean_table(f"negated{n}", negrows[n], "Bptk.C02.Gen") for n in (1, 2, 3)))
+                 + "".join(pyfrag.lean_table(f"negated{n}", negrows[n], "Bptk.C02.Gen") for n in (1, 2, 3))
+                 + "".join(pyfrag.lean_table(f"fwd_{FORWARD[mn][1]}", fwdrows[mn], "Bptk.C02.Gen") for mn in FORWARD))
     write_if_changed(os.path.join(LEAN, "Bptk", "Gen", "C02Table.lean"), table_src)
     b = lake_build(["Bptk.Gen.C02Table", "Bptk.Core.PyWire"])
     if not b["ok"]:
@@ -684,6 +748,17 @@ def run(chk):
             ob += (f"theorem neg{n}_ok : negOK {n} negated{n} = true := by decide +kernel\n#print axioms neg{n}_ok\n")
         else:
             ob += (f"theorem neg{n}_not_ok : negOK {n} negated{n} = false := by decide +kernel\n#print axioms neg{n}_not_ok\n")
+    # forward overloads as build steps: `e X 7.5` must be built as `X(e, 7.5)` for every class — no rewriting at build time
+    fwd_bad = {}
+    for mn, (sym, lname) in FORWARD.items():
+        fo = drive("C02", ["parse " + " ".join(r[2]) for r in fwdrows[mn]]) if fwdrows[mn] else []
+        okset = [f"sexp ({sym} (hole 0) (hole 1))"] + ([f"sexp ({sym} (hole 1) (hole 0))"] if sym in "+*" else [])
+        bad_here = {f"{r[0]}.{mn}": o[:120] for r, o in zip(fwdrows[mn], fo) if o not in okset}
+        fwd_bad.update(bad_here)
+        if not bad_here:
+            ob += f"theorem fwd_{lname}_ok : fwdOK .{lname} fwd_{lname} = true := by decide +kernel\n#print axioms fwd_{lname}_ok\n"
+        else:
+            ob += f"theorem fwd_{lname}_not_ok : fwdOK .{lname} fwd_{lname} = false := by decide +kernel\n#print axioms fwd_{lname}_not_ok\n"
     if not refl_bad:
         ob += ("theorem refl_ok : reflOK reflected = true := by decide +kernel\n#print axioms refl_ok\n"
                "theorem refl_denotes (t : Tmpl) (ht : t ∈ reflected) (k : BinOp) (hk : reflOp t.cls = some k) (α : Type) (C : Carrier α) (ρ : Nat → α) :\n"
@@ -717,6 +792,11 @@ def run(chk):
     st = signed_trees()
     n_st = len(st)
     trees += st
+    so = same_op_trees()
+    if chk.quick:
+        so = so[::3]
+    n_so = len(so)
+    trees += so
     vk = value_kind_trees()
     vk_row = {}
     for r, g in vk:
@@ -833,6 +913,8 @@ def run(chk):
     chk.cov["depth3_reduced_alphabet_trees"] = n_d3
     chk.cov["number_left_right_trees"] = n_ns
     chk.cov["stacked_minus_trees"] = n_st
+    chk.cov["same_operator_literal_nestings"] = n_so
+    chk.cov["forward_builds"] = {"rows": {mn: len(r) for mn, r in fwdrows.items()}, "not_ok": fwd_bad, "problems": fwd_problems[:10]}
     # per kind of number / element: how many trees were accepted-and-right (R), rejected when built (B) / evaluated (E), no DSL
     # object (P), outside the comparable domain (D), wrong (W)
     chk.cov["value_and_element_kinds"] = vk_counts
@@ -854,7 +936,7 @@ def run(chk):
     }
     chk.cov["rule"] = (f"every outer operator × operand position × inner operator of the C02 vocabulary (depth 2{', plus all +-*/**% triples at depth 3' if not chk.quick else ''}; {n_exh} trees){f', all depth-3 spines and two-compound-operand trees over the reduced alphabet (one representative per precedence level / associativity class) × all operand positions ({n_d3} trees)' if n_d3 else ''}, "
                        f"every overloaded binary operator with a number on the left / right of an element, a compound and a number-sided compound operand ({n_ns} trees, depth 2–3), "
-                       f"0–3 stacked unary minus over every operator class / sd function, bare, through a shared variable and under outer + − × ÷ ({n_st} trees), "
+                       f"nestings of the same operator with number literals on both levels over operands of both signs and zero ({n_so} trees), 0–3 stacked unary minus over every operator class / sd function, bare, through a shared variable and under outer + − × ÷ ({n_st} trees), "
                        f"the classification table outer[position] × inner form × kind of the other operand incl. number-on-the-left forms ({len(ccases)} cases) "
                        "and seeded random trees to depth 5; per tree: real term text = Lean render; Lean parse = CPython ast.parse; denote = parse; parse with the proved fuel bound 2·length+2 = parse; real value = Python arithmetic. "
                        "distinct = canonical expression text; non-trivial = at least one compound operand")
@@ -881,6 +963,9 @@ def run(chk):
     if bad and ref_fail is None:
         chk.add_finding("obligation", f"tableOK fails for {bad} and no expression with a wrong value was found",
                         {"theorem": "Bptk.C02.Gen.table_ok (tableOK L table)", "not_ok": bad}, found_input=False)
+    if fwd_bad and ref_fail is None:
+        chk.add_finding("obligation", f"a forward overload does not build Op(self, literal): {fwd_bad} and no expression with a wrong value was found",
+                        {"theorem": "Bptk.C02.Gen.fwd_*_ok (fwdOK)", "not_ok": fwd_bad}, found_input=False)
     if neg_bad and ref_fail is None:
         chk.add_finding("obligation", f"unary minus does not build (-1.0)*(operand) for: {neg_bad} and no expression with a wrong value was found",
                         {"theorem": "Bptk.C02.Gen.negN_ok (negOK n negatedN)", "not_ok": neg_bad}, found_input=False)
